@@ -9,6 +9,7 @@ package regen
 import (
 	"fmt"
 	"go/ast"
+	"go/build/constraint"
 	"go/parser"
 	"go/token"
 	"go/types"
@@ -35,6 +36,7 @@ type Corpus struct {
 	Cmds     [][]string // argument lists for the cff binary, each with a working directory relative to the copy: first element is the directory
 	VRules   bool       // extract base-mode instances and run the V-rules on them
 	Modifier bool       // the corpus is generated in modifier mode: instances are the generated flow functions
+	Go       string     // go directive of the synthesised go.mod ("" = 1.19)
 }
 
 // Result of regenerating the corpora.
@@ -105,7 +107,11 @@ func Regenerate(repoDir string, corpora []Corpus) (*Result, error) {
 			return nil
 		})
 		if c.Module != "" {
-			mod := fmt.Sprintf("module %s\n\ngo 1.19\n\nrequire go.uber.org/cff v0.0.0\n\nreplace go.uber.org/cff => %s\n", c.Module, repoDir)
+			gov := c.Go
+			if gov == "" {
+				gov = "1.19"
+			}
+			mod := fmt.Sprintf("module %s\n\ngo %s\n\nrequire go.uber.org/cff v0.0.0\n\nreplace go.uber.org/cff => %s\n", c.Module, gov, repoDir)
 			os.WriteFile(filepath.Join(dst, "go.mod"), []byte(mod), 0o644)
 			if b, err := os.ReadFile(filepath.Join(repoDir, "go.sum")); err == nil {
 				os.WriteFile(filepath.Join(dst, "go.sum"), b, 0o644)
@@ -246,11 +252,25 @@ func analyse(res *Result, c Corpus, dir string, env []string, directives map[str
 			if !ok {
 				continue
 			}
+			var ins []*gen.Instance
 			if c.Modifier {
-				res.Instances = append(res.Instances, modInstancesOf(c.Name, rel, p, f, sf.pkg, sf.file, srcFset)...)
+				ins = modInstancesOf(c.Name, rel, p, f, sf.pkg, sf.file, srcFset)
 			} else {
-				res.Instances = append(res.Instances, instancesOf(c.Name, rel, p, f, sf.pkg, sf.file, srcFset)...)
+				ins = instancesOf(c.Name, rel, p, f, sf.pkg, sf.file, srcFset)
 			}
+			// the language version that governs the generated file: the module's go directive, or the go1.N
+			// its own build constraint pins it to
+			minor := 19
+			if c.Go != "" {
+				fmt.Sscanf(c.Go, "1.%d", &minor)
+			}
+			if fm := fileGoMinor(f); fm > 0 {
+				minor = fm
+			}
+			for _, in := range ins {
+				in.GoMinor = minor
+			}
+			res.Instances = append(res.Instances, ins...)
 			res.Outside = append(res.Outside, compareOutside(c.Name+"/"+rel, sf.pkg, sf.file, srcFset, p, f, c.Modifier))
 			res.Tags = append(res.Tags, compareConstraints(c.Name+"/"+rel, sf.file, f))
 		}
@@ -393,4 +413,27 @@ func instancesOf(corpus, rel string, gp *packages.Package, gf *ast.File, sp *pac
 		out = append(out, in)
 	}
 	return out
+}
+
+// fileGoMinor: the go1.N a file's //go:build line pins its language version to (0 = none).
+func fileGoMinor(f *ast.File) int {
+	for _, cg := range f.Comments {
+		if cg.Pos() >= f.Package {
+			break
+		}
+		for _, c := range cg.List {
+			if !constraint.IsGoBuild(c.Text) {
+				continue
+			}
+			e, err := constraint.Parse(c.Text)
+			if err != nil {
+				continue
+			}
+			n := 0
+			if _, err := fmt.Sscanf(constraint.GoVersion(e), "go1.%d", &n); err == nil {
+				return n
+			}
+		}
+	}
+	return 0
 }
